@@ -68,7 +68,7 @@ TInit ==
   /\ acc = EmptyFn /\ requeue = EmptyFn /\ route = EmptyFn /\ lrnOf = EmptyFn /\ sels = EmptyFn
   /\ lrns = EmptyFn /\ nsel = 0 /\ selOf = EmptyFn /\ bgprio = 0 /\ gone = {} /\ nonconf = 0 /\ clock = 0 /\ insync = {} /\ wlast = EmptyFn
   /\ stats = [sections |-> 0, picks |-> 0, handoffs |-> 0, merged |-> 0, requeued |-> 0, background |-> 0,
-              completed_by_worker |-> 0, completed_by_scheduler |-> 0, cleanups |-> 0, quiescent |-> 0, finals |-> 0, listings |-> 0, design_steps |-> 0]
+              completed_by_worker |-> 0, completed_by_scheduler |-> 0, cleanups |-> 0, quiescent |-> 0, finals |-> 0, listings |-> 0, design_steps |-> 0, dup_syncs |-> 0]
 
 Keep(vs) == UNCHANGED vs
 
@@ -193,6 +193,7 @@ RetChecks ==
            <<(Line.code = 0 /\ Line.desired = "idle" /\ ws # {}) => x[2].task = 0,
               "C01:worker-keeps-task-it-was-not-told-to-execute">>,
            <<(Line.code = 0 /\ ws # {}) => x[2].cleanup_at = S.now + cfg.worker, "C06:worker-timeout-not-armed-at-now-plus-timeout">>,
+           <<Line.code = 8 => c.owner \in insync, "NC:synchronize-refused-as-duplicate-without-one-in-progress">>,
            <<(Line.code = 0 /\ Line.desired = "execute" /\ ws # {} /\ x[2].task # 0 /\ HasTask(S, x[2].task)) =>
                LET t == TaskOf(S, x[2].task) IN Line.suffix = t.suffix, "C05:instance-name-suffix-differs">>
          >>
@@ -201,8 +202,9 @@ RetChecks ==
 TRet ==
   /\ IsEvent("ret")
   /\ fails' = NewFails(RetChecks) /\ verdict' = Conclude(fails')
-  /\ insync' = IF Line.kind = "sync" THEN insync \ {Line.owner} ELSE insync
-  /\ wlast' = IF Line.kind = "sync" /\ Line.owner \in insync THEN Upd(wlast, Line.owner, S.now) ELSE wlast
+  \* (a call refused as a duplicate, code 8, ends nothing: the original is still in progress)
+  /\ insync' = IF Line.kind = "sync" /\ Line.code # 8 THEN insync \ {Line.owner} ELSE insync
+  /\ wlast' = IF Line.kind = "sync" /\ Line.code # 8 /\ Line.owner \in insync THEN Upd(wlast, Line.owner, S.now) ELSE wlast
   /\ UNCHANGED <<S, cfg, calls, stm, acc, requeue, route, lrnOf, sels, lrns, nsel, selOf, bgprio, gone, nonconf, stats, clock>>
 
 -----------------------------------------------------------------------------
@@ -248,6 +250,11 @@ Actor == Line.actor
 Call == IF Actor \in DOMAIN calls THEN calls[Actor] ELSE [kind |-> "driver", owner |-> "driver"]
 Now2 == Post.now
 
+\* A Synchronize call for a worker that already has one in progress (past
+\* its first section, not yet returned): the scheduler refuses it with
+\* RESOURCE_EXHAUSTED and leaves the worker alone.
+IsDupSync == Call.kind = "sync" /\ Line.first /\ Call.owner \in insync
+
 \* Cleanups that must have run at the start of this section.
 DueWorkers == {x \in WorkersOf(S) : x[2].cleanup_at >= 0 /\ x[2].cleanup_at <= Now2}
 DueOps == {o \in Ops(S) : o.cleanup_at >= 0 /\ o.cleanup_at <= Now2}
@@ -266,7 +273,7 @@ OpsOfTaskDue(t) == \A n \in Rng(t.ops) : HasOp(S, n) => OpOf(S, n) \in DueOps
 \* section: it is the first section of the call, and the worker and its
 \* task survive the cleanups that run at the start of the section.
 Accepted ==
-  /\ AcceptedCompletion(Call) /\ Line.first
+  /\ AcceptedCompletion(Call) /\ Line.first /\ ~IsDupSync
   /\ ~(\E x \in DueWorkers : x[2].id = Call.owner)
   /\ ~OpsOfTaskDue(TaskOf(S, CompletedTaskId(Call)))
 
@@ -402,6 +409,12 @@ SyncChecks ==
       "C06:task-reissued-beyond-retry-limit">>
   >>
 
+\* The section of a refused duplicate Synchronize leaves the worker as it was.
+DupSyncChecks == <<
+    <<{x[2] : x \in WorkerIn(Post, Call.owner)} = {x[2] : x \in WorkerIn(S, Call.owner)},
+      "NC:duplicate-synchronize-changed-the-worker">>
+  >>
+
 \* Retry on the largest size class.
 RetryChecks ==
   LET back == IF Accepted /\ HasTask(Post, CompletedTaskId(Call)) /\ Live(TaskOf(Post, CompletedTaskId(Call)))
@@ -515,6 +528,13 @@ CommonChecks == <<
     <<\A id \in NewlyCompleted :
         IF TaskOf(Post, id).resp = "" THEN SchedulerMadeOK(id) ELSE WorkerMadeOK(id),
       "C02:task-completed-with-unexplained-result">>,
+    \* "the task is cancelled only when its last operation is abandoned":
+    \* every operation that points to the task (whether or not the task
+    \* still lists it) has lost its clients and timed out
+    <<\A id \in NewlyCompleted :
+        (TaskOf(Post, id).resp = "" /\ TaskOf(Post, id).code = 1 /\ Call.kind \notin {"kill", "killqueue"}) =>
+          \A o \in Ops(S) : o.task = id => o \in DueOps,
+      "C03:task-cancelled-while-a-client-is-still-attached">>,
     <<\A id \in NewlyAssigned : ~PostWorker(id)[2].drained /\ ~PostWorker(id)[2].terminating,
       "C05:task-assigned-to-drained-or-terminating-worker">>,
     <<\A id \in NewlyAssigned :
@@ -705,7 +725,8 @@ HandOffChecks ==
 SecChecks ==
   CommonChecks
   \o (IF Call.kind = "execute" /\ Line.first THEN ExecChecks ELSE <<>>)
-  \o (IF Call.kind = "sync" THEN SyncChecks ELSE <<>>)
+  \o (IF Call.kind = "sync" /\ ~IsDupSync THEN SyncChecks ELSE <<>>)
+  \o (IF IsDupSync THEN DupSyncChecks ELSE <<>>)
   \o RetryChecks \o BgChecks \o LearnerChecks \o PickChecks \o HandOffChecks
 
 TSec ==
@@ -727,7 +748,8 @@ TSec ==
         !.background = @ + Cardinality({id \in NewTasks : TaskOf(Post, id).dnc /\ Call.kind = "sync"}),
         !.completed_by_worker = @ + Cardinality({id \in NewlyCompleted : TaskOf(Post, id).resp # ""}),
         !.completed_by_scheduler = @ + Cardinality({id \in NewlyCompleted : TaskOf(Post, id).resp = ""}),
-        !.cleanups = @ + Cardinality(DueWorkers) + Cardinality(DueOps) + Cardinality(DueQueues)]
+        !.cleanups = @ + Cardinality(DueWorkers) + Cardinality(DueOps) + Cardinality(DueQueues),
+        !.dup_syncs = @ + (IF IsDupSync THEN 1 ELSE 0)]
   /\ insync' = IF Call.kind = "sync" /\ Line.first THEN insync \cup {Call.owner} ELSE insync
   /\ UNCHANGED <<cfg, calls, stm, route, nsel, selOf, bgprio, gone, wlast, clock>>
 
@@ -746,6 +768,16 @@ ParkedChecks ==
         LET ws == WorkerIn(S, calls[a].owner) IN
           ws # {} /\ \A x \in ws : x[2].task = 0 /\ (x[2].parked \/ x[2].drained),
       "C06:worker-not-woken">>,
+    \* "no task stays queued while an undrained worker of its queue is
+    \* waiting": judged by the blocked Synchronize call itself, not by the
+    \* scheduler's own list of waiting workers
+    <<\A a \in parked : (a \in DOMAIN calls /\ calls[a].kind = "sync") =>
+        \A x \in WorkerIn(S, calls[a].owner) :
+          (x[2].task = 0 /\ ~x[2].drained) =>
+            ~\E id \in TaskIds(S) :
+               LET t == TaskOf(S, id) IN
+                 t.stage = "Q" /\ Len(t.ops) > 0 /\ HasOp(S, t.ops[1]) /\ TaskQueueIdx(S, t) = x[1],
+      "C04:task-stays-queued-while-an-undrained-worker-of-its-queue-waits">>,
     <<\A a \in parked : (a \in DOMAIN calls /\ calls[a].kind = "terminate") =>
         \E x \in WorkersOf(S) : x[2].task # 0 /\ x[2].terminating,
       "C06:terminate-workers-not-woken">>,
